@@ -17,6 +17,10 @@ pub enum Case {
     Clmul { a: u128, b: u128 },
     Hash { tweak: [u8; 16], x: [u8; 16] },
     Rng { seed: [u8; 16], len: usize },
+    /// slice variants of the hashes on `len` blocks
+    HashSlice { seed: u64, len: usize },
+    /// a sequence of operations on one generator: v < 1200 = fill_bytes(v), 1200 = next_u32, 1201 = next_u64
+    RngOps { seed: [u8; 16], ops: Vec<u16> },
 }
 
 fn fill(len: usize, seed: u64, density: u8) -> Vec<u8> {
@@ -112,6 +116,79 @@ pub fn test_case(c: &Case) -> Result<CaseInfo, Fail> {
             classes.push("hash".into());
             desc = json!({"hash": {"tweak": format!("{tweak:02x?}"), "x": format!("{x:02x?}")}});
         }
+        Case::HashSlice { seed, len } => {
+            let raw = fill(len * 32, *seed, 0);
+            let xs: Vec<[u8; 16]> = (0..*len).map(|i| raw[32 * i..32 * i + 16].try_into().unwrap()).collect();
+            let ts: Vec<[u8; 16]> = (0..*len).map(|i| raw[32 * i + 16..32 * i + 32].try_into().unwrap()).collect();
+            let pi = Aes128Ref::new(pv::fixed_key());
+            let cr = pv::cr_hash_slice(&xs);
+            let tccr = pv::tccr_hash_slice(&ts, &xs);
+            if cr.len() != *len || tccr.len() != *len {
+                return Err(Fail::new("C20|hash|slice-length", format!("slice hash of {len} blocks returns {} / {} blocks", cr.len(), tccr.len())));
+            }
+            for i in 0..*len {
+                let px = pi.encrypt(xs[i]);
+                if cr[i] != xor16(px, xs[i]) {
+                    return Err(Fail::new("C20|hash|cr-slice", format!("cr_hash_slice of {len} blocks: block {i} != pi(x)^x")));
+                }
+                if tccr[i] != xor16(pi.encrypt(xor16(px, ts[i])), px) {
+                    return Err(Fail::new("C20|hash|tccr-slice", format!("tccr_hash_slice of {len} blocks: block {i} != pi(pi(x)^tweak(i))^pi(x)")));
+                }
+            }
+            classes.push("hash-slice".into());
+            if len % 8 != 0 && *len > 8 {
+                classes.push("hash-slice:ragged".into());
+            }
+            desc = json!({"hash_slice_len": len});
+        }
+        Case::RngOps { seed, ops } => {
+            let ops2: Vec<pv::RngOp> = ops.iter().map(|v| if *v < 1200 { pv::RngOp::Fill(*v as usize) } else if *v == 1200 { pv::RngOp::U32 } else { pv::RngOp::U64 }).collect();
+            let outs = pv::aes_rng_ops(*seed, &ops2);
+            let total: usize = outs.iter().map(|o| o.len()).sum();
+            // every refill of the generator's buffer takes 8 counter values
+            let ks = ctr_keystream(*seed, total + 128 * (ops.len() + 2) + 256);
+            let mut used = vec![false; ks.len()];
+            for (k, o) in outs.iter().enumerate() {
+                // pieces the generator hands out: whole blocks (block-aligned in the keystream), then
+                // the tail / the integer (word-aligned; an integer may straddle a buffer refill)
+                let mut pieces: Vec<(usize, usize, usize)> = vec![]; // (start, len, alignment)
+                let whole = if ops[k] < 1200 { o.len() / 16 } else { 0 };
+                for b in 0..whole {
+                    pieces.push((16 * b, 16, 16));
+                }
+                if o.len() > 16 * whole {
+                    pieces.push((16 * whole, o.len() - 16 * whole, 4));
+                }
+                let mut i = 0;
+                while i < pieces.len() {
+                    let (st, len, al) = pieces[i];
+                    let seg = &o[st..st + len];
+                    let cands: Vec<usize> = (0..ks.len() - len).step_by(al).filter(|a| ks[*a..*a + len] == *seg).collect();
+                    if cands.is_empty() {
+                        if len == 8 && ops[k] == 1201 {
+                            // next_u64 across a refill: two words
+                            pieces[i] = (st, 4, 4);
+                            pieces.insert(i + 1, (st + 4, 4, 4));
+                            continue;
+                        }
+                        return Err(Fail::new("C20|rng-seq|not-keystream", format!("operation {k} of {ops:?}: output bytes {st}..{} are no part of the AES-128 counter-mode keystream of the seed", st + len)));
+                    }
+                    // short pieces can match by chance: only pieces of >= 8 bytes are booked / judged for reuse
+                    if len >= 8 {
+                        let Some(a) = cands.iter().copied().find(|a| !used[*a..*a + len].iter().any(|u| *u)) else {
+                            return Err(Fail::new("C20|rng-seq|keystream-reused", format!("operation {k} of {ops:?} outputs keystream bytes {}..{} that an earlier operation has already output (at least partly)", cands[0], cands[0] + len)));
+                        };
+                        used[a..a + len].iter_mut().for_each(|u| *u = true);
+                    }
+                    i += 1;
+                }
+            }
+            classes.push("rng-seq".into());
+            if ops.iter().filter(|v| **v < 1200 && **v % 16 != 0).count() >= 2 {
+                classes.push("rng-seq:>=2 ragged fills".into());
+            }
+            desc = json!({"rng_ops": ops});
+        }
         Case::Rng { seed, len } => {
             let got = pv::aes_rng_fill(*seed, *len);
             let want = ctr_keystream(*seed, *len);
@@ -155,13 +232,15 @@ fn gen_random() -> impl Strategy<Value = Case> {
         4 => (structured_u128(), structured_u128()).prop_map(|(a, b)| Case::Clmul { a, b }),
         3 => (structured_u128(), structured_u128()).prop_map(|(t, x)| Case::Hash { tweak: t.to_le_bytes(), x: x.to_be_bytes() }),
         2 => (any::<u128>(), 0usize..=1100).prop_map(|(s, len)| Case::Rng { seed: s.to_le_bytes(), len }),
+        1 => (any::<u64>(), 0usize..=70).prop_map(|(seed, len)| Case::HashSlice { seed, len }),
+        2 => (any::<u128>(), proptest::collection::vec(prop_oneof![4 => 0u16..=300, 1 => 300u16..1200, 1 => Just(1200u16), 1 => Just(1201u16)], 1..8)).prop_map(|(s, ops)| Case::RngOps { seed: s.to_le_bytes(), ops }),
     ]
 }
 
 pub fn run(tier: Tier, seed: u64) -> i32 {
     let ctx = Ctx::new("C20", tier, seed, "exploration");
-    ctx.set_rule("systematic: every 128 x c matrix shape for c in {16,24,..,4096} (quick: every c up to 1024 and every 8th above) with random / sparse / dense / single-bit content at buffer offsets 0..15, all basis pairs x^i * x^j, every generator length 0..1100; proptest: random rows x cols shapes for the dispatching (rows%128==0) and the portable (rows%16==0) entry, structured and random operands, blocks and tweaks, seeds and lengths; oracle: harness-side references (transpose by definition with LSB-first bit numbering, schoolbook 128x128 carry-less product, textbook AES-128 checked against FIPS-197 C.1 and the aes crate, CTR keystream AES_seed(LE128(i))); dispatching = portable/scalar = reference; distinct by hash of the case");
-    ctx.assume("this host has AVX2 and PCLMULQDQ, so the dispatching entries exercise the SIMD paths; generator output is compared for one fill_bytes call on a fresh generator");
+    ctx.set_rule("systematic: every 128 x c matrix shape for c in {16,24,..,4096} (quick: every c up to 1024 and every 8th above) with random / sparse / dense / single-bit content at buffer offsets 0..15, all basis pairs x^i * x^j, every generator length 0..1100, the slice variants of both hashes on 0..67 blocks, every pair of lengths 0..40 in consecutive fill_bytes calls; proptest: operation sequences (fill_bytes / next_u32 / next_u64) on one generator - every output run is part of the counter-mode keystream of the seed and no keystream byte is output twice (runs >= 8 bytes); random rows x cols shapes for the dispatching (rows%128==0) and the portable (rows%16==0) entry, structured and random operands, blocks and tweaks, seeds and lengths; oracle: harness-side references (transpose by definition with LSB-first bit numbering, schoolbook 128x128 carry-less product, textbook AES-128 checked against FIPS-197 C.1 and the aes crate, CTR keystream AES_seed(LE128(i))); dispatching = portable/scalar = reference; distinct by hash of the case");
+    ctx.assume("this host has AVX2 and PCLMULQDQ, so the dispatching entries exercise the SIMD paths; single calls are compared exactly; for sequences of calls the oracle is membership in the keystream and no reuse (the buffering of partial blocks is the generator's choice)");
     if let Err(e) = crate::prim::self_test() {
         ctx.infra(e);
         return ctx.finish();
@@ -184,6 +263,17 @@ pub fn run(tier: Tier, seed: u64) -> i32 {
     }
     for len in 0..=1100usize {
         cases.push(Case::Rng { seed: (seed as u128 * 0x9E3779B97F4A7C15 + len as u128).to_le_bytes(), len });
+    }
+    for len in 0..=67usize {
+        cases.push(Case::HashSlice { seed: seed.wrapping_mul(31).wrapping_add(len as u64), len });
+    }
+    // every pair of lengths 0..40 in two consecutive fill_bytes calls, followed by a whole block
+    for a in 0..=40u16 {
+        for b in 0..=40u16 {
+            if tier == Tier::Thorough || (a + b + seed as u16) % 3 == 0 {
+                cases.push(Case::RngOps { seed: (seed as u128 * 77 + a as u128 * 64 + b as u128).to_le_bytes(), ops: vec![a, b, 16] });
+            }
+        }
     }
     ctx.extra("systematic_cases", json!(cases.len()));
     enumerate(&ctx, &cases, test_case);
